@@ -5,7 +5,7 @@
    ATA PASS-THROUGH: a complete sweep of the SAT flag space (finite, stated). *)
 From Coq Require Import String.
 From PS Require Import Base.Bytes Base.Result Model.Converter Model.Command Model.Ctor Model.InitCdb Model.CorrUtil.
-From PS Require Import Proofs.CtorSound Proofs.CdbSpec Proofs.CtorBuffers Proofs.Ata.
+From PS Require Import Proofs.CtorSound Proofs.CdbSpec Proofs.CtorBuffers Proofs.Ata Model.Xfer Proofs.XferProps.
 From PS Require Import Spec.CdbFormats Gen.Tables Gen.Ctors.
 Open Scope string_scope.
 Open Scope N_scope.
@@ -70,14 +70,14 @@ Qed.
 
 (* iSCSI derives direction and length from len() of the two buffers: with byte buffers, and at most one
    of them non-empty, that is the announced transfer *)
-Definition clen (v : cval) : option N :=
-  match v with CBytes b => Some (N.of_nat (length b)) | CZeros n => Some n | _ => None end.
-Definition iscsi_dir_len (out inn : cval) : option (N * N) :=    (* (direction 0 none / 1 read / 2 write, length) *)
-  match clen inn, clen out with
-  | Some li, Some lo => Some (if negb (lo =? 0) then (2, lo) else if negb (li =? 0) then (1, li) else (0, 0))
-  | _, _ => None                  (* len(None) raises TypeError *)
-  end.
-Theorem C03_iscsi_direction : forall out inn lo li,
-  clen out = Some lo -> clen inn = Some li -> (lo = 0 \/ li = 0) ->
-  iscsi_dir_len out inn = Some (if negb (lo =? 0) then (2, lo) else if negb (li =? 0) then (1, li) else (0, 0)).
-Proof. intros out inn lo li Ho Hi _. unfold iscsi_dir_len. now rewrite Ho, Hi. Qed.
+(* iSCSI: the REGENERATED transfer set-up of ISCSIDevice.execute hands the binding, for ALL buffer lengths, direction
+   WRITE with len(data-out) when there is data-out, else READ with len(data-in) when there is data-in, else no transfer;
+   Task is called with (cdb, dir, xferlen) and command with (lun, task, dataout, datain) — any other shape makes
+   iscsi_xfer None.  SG_IO: sgio.execute is called with (file, cdb, dataout, datain). *)
+Theorem C03_iscsi_direction : forall lo li,
+  iscsi_xfer lo li = Some (if negb (lo =? 0) then ("SCSI_XFER_WRITE", lo)
+                           else if negb (li =? 0) then ("SCSI_XFER_READ", li) else ("SCSI_XFER_NONE", 0)).
+Proof. exact iscsi_xfer_spec. Qed.
+
+Theorem C03_sgio_arguments : sgio_args_ok = true.
+Proof. exact sgio_args_checked. Qed.
